@@ -1,7 +1,7 @@
 #!/usr/bin/env python3
 """Confirms a seeded change delivered by a sub-agent and runs the checks against it.
 
-  lib/seedtest.py <Cxx> [--checks C01,C05] [--tier quick] [--keep]
+  lib/seedtest.py <Cxx> [--checks C01,C05] [--tier quick] [--keep] [--src <dir with changeN.diff, demoN/, meta.json>] [--offset k]
 
 For every /tmp/seedout_<Cxx>/changeN.diff: scratch worktree of /repo HEAD, (1) demo passes on the clean tree,
 (2) apply the diff, existing suite passes, (3) demo fails, (4) the property's check (and --checks) run with
@@ -62,6 +62,11 @@ def main():
     if "--tier" in sys.argv:
         tier = sys.argv[sys.argv.index("--tier") + 1]
     out_dir = "/tmp/seedout_" + pid
+    offset = 0
+    if "--src" in sys.argv:
+        out_dir = sys.argv[sys.argv.index("--src") + 1]
+    if "--offset" in sys.argv:
+        offset = int(sys.argv[sys.argv.index("--offset") + 1])
     meta_in = {}
     try:
         meta_in = json.load(open(os.path.join(out_dir, "meta.json")))
@@ -110,7 +115,7 @@ def main():
                 shutil.rmtree(wt, ignore_errors=True)
         # store
         if res.get("confirmed"):
-            sd = os.path.join(VERIF, "seeded", "%s-%d" % (pid, n))
+            sd = os.path.join(VERIF, "seeded", "%s-%d" % (pid, n + offset))
             shutil.rmtree(sd, ignore_errors=True)
             os.makedirs(os.path.join(sd, "demo"), exist_ok=True)
             shutil.copy(diff, os.path.join(sd, "patch.diff"))
